@@ -1,6 +1,6 @@
 from props import cfg
 
-CFG = cfg('C01', extract='Ex_Sig', driver='sig',
+CFG = cfg('C01', refine=['Refine_sig'], extract='Ex_Sig', driver='sig',
           rule='for every signature PGPy makes over keys x signature types (0x00,0x01,0x02,0x40,0x10-0x13,0x16,0x1F,0x18,0x19,0x20,0x28,0x30) '
                'x option sets: baseline verifies; per-entry verdict == extracted model with the primitive answered by cryptography on raw numbers; '
                'then every mutation class of the property: subject (extend/truncate/flip, other uid, forged uid, other key), signature type among '
